@@ -3,6 +3,7 @@
   the bit-maps are taken) and encoder.
 -/
 import BufrModel.Lemmas.LinkSpecEnc
+import BufrModel.Lemmas.CompFactors
 namespace Bufr.C07
 open Bufr.Spec
 
@@ -204,7 +205,7 @@ theorem decPrimsC_rec : Rec decPrimsC decV (fun _ => True) where
   newRefval := fun e n s s' h => by
     obtain ⟨b, v, rfl⟩ := decNewRefvalC_shape e n s s' h
     exact ⟨rfl, _, decV_pushAll s (.plain e) _ b⟩
-  lastValues := decLastValues_spec
+  lastValues := fun k s l h hk hl ht => decLastValues_spec k s l (decLastValuesC_ok h).1 hk hl ht
   numericL := fun dd n sc r s s' h => by
     obtain ⟨col, b, hc, rfl⟩ := decNumericC_push dd n sc r s s' h
     exact (decV_pushCol s dd col b hc).2
@@ -369,7 +370,7 @@ theorem encPrimsC_rec (vs : List Val) : Rec encPrimsC encV (encXv vs) where
   codeflag := fun dd n s s' h => let ⟨v, a, _⟩ := encCodeflagC_step dd n s s' h; ⟨v, a.encV⟩
   constant := fun dd c s s' h => let ⟨v, a, _⟩ := encConstantC_step dd c s s' h; ⟨v, a.encV⟩
   newRefval := fun e n s s' h => let ⟨v, a⟩ := encNewRefvalC_step e n s s' h; ⟨a.descs, v, a.encV⟩
-  lastValues := fun k s l h hk hl hx => encLastValues_spec k s l h hk hl vs hx
+  lastValues := fun k s l h hk hl hx => encLastValues_spec k s l (encLastValuesC_ok h).1 hk hl vs hx
   numericL := fun dd n sc r s s' h => let ⟨_, a, _⟩ := encNumericC_step dd n sc r s s' h; by rw [a.vals]
   stringL := fun dd n s s' h => let ⟨_, a, _⟩ := encStringC_step dd n s s' h; by rw [a.vals]
   codeflagL := fun dd n s s' h => let ⟨_, a, _⟩ := encCodeflagC_step dd n s s' h; by rw [a.vals]
